@@ -111,7 +111,10 @@ pub fn run(seed: u64, n: usize, sink: &mut Sink) {
     for t in 0..n_runs {
         let mut rr = r.fork();
         let mut o = ss_opts(&mut rr, t, t % 5 != 4);
-        if o.init == 2 { o.init = 1; }
+        // init 2 (the state's clock AND speed differ from the trace's first sample) is kept for every second such run: the
+        // trace, not the state, supplies the previous speed of the first step
+        if o.init == 2 && t % 2 == 1 { o.init = 1; }
+        if t % 6 == 2 { o.init = 4; }
         // every fourth run starts with a state clock that differs from the trace's first time stamp
         if o.init == 1 && t % 4 == 1 { o.init = 3; }
         if o.init == 0 && t % 8 == 3 { o.init = 3; }
